@@ -2548,6 +2548,141 @@ impl Ctx {
         }
     }
 
+    /// (D) a module that fails to compile while it is imported at run time: the runtime error's
+    /// trace is the import expression, then the enclosing call sites; the message a host gets
+    /// through `koto::Koto::compile_and_run` is the same text (module position, then those frames)
+    fn import_error_case(&mut self, module_src: &str, main_tpl: &str, frames: &[usize], quiet: bool) -> Option<String> {
+        let dir = std::env::var("VERIF_SCRATCH").map(std::path::PathBuf::from).unwrap_or_else(|_| std::env::temp_dir().join(format!("c12-{}", std::process::id())));
+        let _ = std::fs::create_dir_all(&dir);
+        self.mod_counter += 1;
+        let name = format!("c12bad{}", self.mod_counter);
+        let main_src = main_tpl.replace("MODNAME", &name);
+        let mod_path = dir.join(format!("{name}.koto"));
+        let main_path = dir.join(format!("c12main{}.koto", self.mod_counter));
+        std::fs::write(&mod_path, module_src).expect("write module");
+        std::fs::write(&main_path, &main_src).expect("write main");
+        let main_path_s = main_path.to_string_lossy().to_string();
+        let mut req = format!("trace {} 0", frames[0]);
+        for l in frames[1..].iter().rev() {
+            req.push_str(&format!(" {l}:0:0"));
+        }
+        let model = self.drv.ask(&req);
+        self.rep.case(&format!("import-error {req} {}", kvh::fnv1a(main_src.as_bytes()) ^ kvh::fnv1a(module_src.as_bytes())), true);
+        let via_vm = kvh::catch(|| {
+            let mut vm = KotoVm::default();
+            let mut loader = ModuleLoader::default();
+            let chunk = match loader.compile_script(&main_src, Some(main_path_s.as_str().into()), CompilerSettings::default()) {
+                Ok(c) => c,
+                Err(e) => return Err(format!("main does not compile: {e}")),
+            };
+            match vm.run(chunk) {
+                Ok(_) => Err("no error surfaced".to_string()),
+                Err(e) => {
+                    let is_compile = matches!(e.error, koto_runtime::ErrorKind::CompileError(_));
+                    let lines: Vec<String> = e
+                        .trace
+                        .iter()
+                        .map(|InstructionFrame { chunk, instruction }| chunk.debug_info.get_source_span(*instruction).map(|s| format!("0:{}", s.start.line)).unwrap_or("0:none".into()))
+                        .collect();
+                    Ok((is_compile, format!("uncaught {}", lines.join(" ")), e.to_string()))
+                }
+            }
+        });
+        let via_koto = kvh::catch(|| {
+            let mut k = koto::Koto::default();
+            match k.compile_and_run(koto::CompileArgs::new(&main_src).script_path(main_path_s.as_str())) {
+                Ok(_) => "ok".to_string(),
+                Err(e) => e.to_string(),
+            }
+        });
+        let _ = std::fs::remove_file(&mod_path);
+        let _ = std::fs::remove_file(&main_path);
+        let det = |what: &str, extra: Value| json!({"replay_kind": "import-error", "module": module_src, "program": main_tpl, "frames": frames, "model": model, "what": what, "observed": extra});
+        let fail: Option<(String, Value)> = match (via_vm, via_koto) {
+            (Err(p), _) | (_, Err(p)) => Some(("C12:panic".into(), det("the implementation panicked", json!(p)))),
+            (Ok(Err(why)), _) => Some(("C12:module-program".into(), det(&why, json!(null)))),
+            (Ok(Ok((is_compile, trace, text))), Ok(koto_text)) => {
+                if !is_compile {
+                    Some(("C12:module-program".into(), det("the import did not fail with a compile error", json!(text))))
+                } else if trace != model {
+                    Some(("C12:trace-lines".into(), det("frames of the failed import differ from the import line and its call sites", json!({"impl_trace": trace, "rendered": text}))))
+                } else if koto_text != text {
+                    // F-C12-8 (koto/src/error.rs From<koto_runtime::Error>, CompileError arm): exactly the
+                    // loader error is kept, the frames are dropped
+                    let loader_only = text.split("\n--- ").next().unwrap_or("");
+                    if self.attribute && koto_text == loader_only && self.open.iter().any(|x| x == "F-C12-8") {
+                        *self.known_hits.entry("F-C12-8".into()).or_default() += 1;
+                        return if quiet { Some("C12:koto-api-message".into()) } else { None };
+                    }
+                    Some(("C12:koto-api-message".into(), det("the message seen through koto::Koto differs from the runtime error's rendering", json!({"via_vm": text, "via_koto": koto_text}))))
+                } else {
+                    None
+                }
+            }
+        };
+        match fail {
+            None => None,
+            Some((n, d)) => {
+                if !quiet {
+                    self.d(&n, d);
+                }
+                Some(n)
+            }
+        }
+    }
+
+    fn import_errors(&mut self, rng: &mut Rng, n: usize) {
+        let mut done = 0;
+        let mut tries = 0;
+        while done < n && tries < 4 * n {
+            tries += 1;
+            // module: a generated program with one syntactic break
+            let p = gen_planted(rng, false);
+            let Some((module_src, _, _kind)) = mutate(rng, &p) else { continue };
+            if compile(&module_src).is_ok() {
+                continue;
+            }
+            // main: the import inside 0-2 functions
+            let mut g = G::new(rng.fork());
+            let s = M_STMT;
+            let depth = g.rng.below(3);
+            let mut raw: Vec<String> = vec![format!("{s}id1 = |a| a"), format!("{s}id2 = |a, b| a")];
+            raw.extend(g.fillers(0, 2, 0));
+            let imp = if g.rng.chance(1, 2) { format!("{M_CALL}0import MODNAME") } else { format!("{M_CALL}0from MODNAME import foo") };
+            let mut key = vec![format!("{s}{imp}")];
+            let mut callee = String::new();
+            for level in 0..=depth {
+                if level > 0 {
+                    g.in_fn = level != depth;
+                    let call = g.call_expr(level, &callee, false, None);
+                    key = g.embed(&call, false);
+                } else {
+                    g.in_fn = depth > 0;
+                }
+                if g.rng.chance(1, 3) {
+                    key = g.wrap(key);
+                }
+                if level == depth {
+                    raw.extend(key.clone());
+                } else {
+                    let mut body = g.fillers(0, 2, 1);
+                    body.extend(key.clone());
+                    body.push(format!("{s}0"));
+                    callee = format!("f{level}");
+                    raw.push(format!("{s}{callee} = |a = 0, b = 0|"));
+                    raw.extend(indent(body, 2));
+                    raw.extend(g.fillers(0, 2, 0));
+                }
+            }
+            raw.extend(g.fillers(0, 1, 0));
+            let f = flatten(&raw, "\n", true);
+            let frames: Vec<usize> = (0..=depth).map(|l| f.calls[l].unwrap()).collect();
+            self.rep.bump(&format!("import_error_depth={depth}"));
+            self.import_error_case(&module_src, &f.src, &frames, false);
+            done += 1;
+        }
+    }
+
     fn modules(&mut self, rng: &mut Rng, n: usize) {
         for _ in 0..n {
             let (m, main, frames, stats) = gen_module(rng);
@@ -2657,6 +2792,10 @@ fn run_recorded_inner(cx: &mut Ctx, d: &Value, quiet: bool) -> Option<String> {
                 cx.check_chunk_spans(src, &chunk);
             }
             if cx.d_fail > before { Some("C12:chunk-structure".into()) } else { None }
+        }
+        "import-error" => {
+            let frames: Vec<usize> = d["frames"].as_array().map(|a| a.iter().map(|x| x.as_u64().unwrap() as usize).collect()).unwrap_or_default();
+            cx.import_error_case(d["module"].as_str().unwrap_or(""), src, &frames, quiet)
         }
         "module" => {
             let frames: Vec<(usize, usize)> = d["frames"].as_array().map(|a| a.iter().map(|f| (f[0].as_u64().unwrap() as usize, f[1].as_u64().unwrap() as usize)).collect()).unwrap_or_default();
@@ -2777,7 +2916,7 @@ fn main() {
     let args = Args::parse();
     let mut rep = Report::new("C12", &args);
     rep.max_samples = 12;
-    rep.rule = "cases: (a) random DebugInfo push sequences with all lookups 0..max+2 [non-trivial: >= 3 pushes]; (b) format_source_excerpt on random texts x random spans incl. out-of-guard ones [non-trivial: >= 2 lines or outside the guard]; (c) generated programs with a single-line fault planted at a known line inside 0-4 nested calls (call line = line of the callee token; call expressions may span lines) after random preceding constructs [non-trivial: >= 1 call level or >= 8 lines]; levels of the call chain may run inside callbacks of core-library functions (eager fold/any/all/find/position; lazy each/keep with their consumer), predicted by Trace.predictSegs; (d) one-token syntactic breaks of such programs with an unambiguous first bad token, and end-of-input cuts with at most one trailing line break (expected line = last line with text); (e) programs with single- and multi-line debug expressions; (f) a fault inside a function of an imported module (two chunks with their own texts and paths), called through 1-3 call sites in module and main script. The language guide does not say which line a failing multi-line expression reports, so planted faults are single-line expressions and for multi-line call expressions only the start line (callee token) is fixed, the reported span must stay inside the call expression. (g) planted-fault kinds added for seeded C12-mut1..3: a failing node at every position of a (mostly multi-line) chain `root` / `.id` / `.\"str\"` with `[i]`, `(call)` and `?` suffixes, with and without `?` after each node, also as assignment target (expected line = the line of the access the node is attached to), call sites that are nodes of multi-line chains, failing operations on registers only (locals / parameters) so that the fault is the first instruction of its statement, functions that are generators whose key statement follows 0-3 `yield`s and whose call site is a consumer (for loop, next(), to_tuple/to_list/count/consume/last, lazy adaptors, unpacking, iterator.next, match) predicted as one more interpreter entry by Trace.predictSegs, the fault itself inside a core-library callback (first instruction of the callback); (h) K1 on real chunks: for generated chains the spans of the Access/AccessString/Index/Call/JumpIfNull instructions in the compiled chunk's source map vs SrcMap.compile on the chain's nesting structure and vs the line of each node [non-trivial: >= 3 nodes]; (i) breaks inside multi-line bracketed constructs (call args, chained calls, list, tuple, map, parameter list, nested, index on one line): element after a missing comma, `then`/`else`, `=`, mismatched closer, on a line of their own or after the previous element, after 0-3 well-formed elements (expected line = the bad token's line; for `=` directly after a literal on the previous line the assignment's target is the offending token); (j) debug statements directly after a `yield` in generators consumed completely, debug of a local/parameter (no instruction before the debug instruction). (k) second wave (observations + seeded C12-mut4..6): every planted / debug / chain program is run under the default CompilerSettings and under one other combination of the flags that change code generation (export_top_level_ids, enable_type_checks; faults that are type checks keep them enabled) with type hints in every position (parameters, return type, let, for, match arm, catch) among the fillers and as function-literal arguments of chain calls; piped calls one per line as call sites; every ErrorKind of the bytecode compiler that source text can raise, with the offending construct on a later line than its statement's start (table checked against the enum in compiler.rs), and the parser's else-not-in-last-arm errors; several bad tokens on different lines (first one expected): repeated `key as name` rebinds in a map on the right-hand side, repeated stray closers / orphan keywords, a second bad token in a bracketed construct; callbacks of every lazy adaptor with an error frame (each, keep, take-while, intersperse-with; table checked against adaptors.rs) consumed directly and through koto.copy / koto.deep_copy / cycle, generators consumed through copies / cycle / flatten. (l) third wave (seeded C12-mut7): fillers made of tokens that span lines before every fault / break / debug statement — strings with 1-3 backslash line continuations (also followed by blank, whitespace-only and tab lines, with interpolations, inside call arguments), interpolations with line breaks in the expression and (top level) in the format options, raw strings and comments with a backslash before the line break — under LF and CRLF (1 file in 5); a bad escape inside a string literal that spans lines (the span has to start in the literal token at or before the escape's line and reach that line). distinct = distinct request/program texts".into();
+    rep.rule = "cases: (a) random DebugInfo push sequences with all lookups 0..max+2 [non-trivial: >= 3 pushes]; (b) format_source_excerpt on random texts x random spans incl. out-of-guard ones [non-trivial: >= 2 lines or outside the guard]; (c) generated programs with a single-line fault planted at a known line inside 0-4 nested calls (call line = line of the callee token; call expressions may span lines) after random preceding constructs [non-trivial: >= 1 call level or >= 8 lines]; levels of the call chain may run inside callbacks of core-library functions (eager fold/any/all/find/position; lazy each/keep with their consumer), predicted by Trace.predictSegs; (d) one-token syntactic breaks of such programs with an unambiguous first bad token, and end-of-input cuts with at most one trailing line break (expected line = last line with text); (e) programs with single- and multi-line debug expressions; (f) a fault inside a function of an imported module (two chunks with their own texts and paths), called through 1-3 call sites in module and main script. The language guide does not say which line a failing multi-line expression reports, so planted faults are single-line expressions and for multi-line call expressions only the start line (callee token) is fixed, the reported span must stay inside the call expression. (g) planted-fault kinds added for seeded C12-mut1..3: a failing node at every position of a (mostly multi-line) chain `root` / `.id` / `.\"str\"` with `[i]`, `(call)` and `?` suffixes, with and without `?` after each node, also as assignment target (expected line = the line of the access the node is attached to), call sites that are nodes of multi-line chains, failing operations on registers only (locals / parameters) so that the fault is the first instruction of its statement, functions that are generators whose key statement follows 0-3 `yield`s and whose call site is a consumer (for loop, next(), to_tuple/to_list/count/consume/last, lazy adaptors, unpacking, iterator.next, match) predicted as one more interpreter entry by Trace.predictSegs, the fault itself inside a core-library callback (first instruction of the callback); (h) K1 on real chunks: for generated chains the spans of the Access/AccessString/Index/Call/JumpIfNull instructions in the compiled chunk's source map vs SrcMap.compile on the chain's nesting structure and vs the line of each node [non-trivial: >= 3 nodes]; (i) breaks inside multi-line bracketed constructs (call args, chained calls, list, tuple, map, parameter list, nested, index on one line): element after a missing comma, `then`/`else`, `=`, mismatched closer, on a line of their own or after the previous element, after 0-3 well-formed elements (expected line = the bad token's line; for `=` directly after a literal on the previous line the assignment's target is the offending token); (j) debug statements directly after a `yield` in generators consumed completely, debug of a local/parameter (no instruction before the debug instruction). (k) second wave (observations + seeded C12-mut4..6): every planted / debug / chain program is run under the default CompilerSettings and under one other combination of the flags that change code generation (export_top_level_ids, enable_type_checks; faults that are type checks keep them enabled) with type hints in every position (parameters, return type, let, for, match arm, catch) among the fillers and as function-literal arguments of chain calls; piped calls one per line as call sites; every ErrorKind of the bytecode compiler that source text can raise, with the offending construct on a later line than its statement's start (table checked against the enum in compiler.rs), and the parser's else-not-in-last-arm errors; several bad tokens on different lines (first one expected): repeated `key as name` rebinds in a map on the right-hand side, repeated stray closers / orphan keywords, a second bad token in a bracketed construct; callbacks of every lazy adaptor with an error frame (each, keep, take-while, intersperse-with; table checked against adaptors.rs) consumed directly and through koto.copy / koto.deep_copy / cycle, generators consumed through copies / cycle / flatten. (l) third wave (seeded C12-mut7): fillers made of tokens that span lines before every fault / break / debug statement — strings with 1-3 backslash line continuations (also followed by blank, whitespace-only and tab lines, with interpolations, inside call arguments), interpolations with line breaks in the expression and (top level) in the format options, raw strings and comments with a backslash before the line break — under LF and CRLF (1 file in 5); a bad escape inside a string literal that spans lines (the span has to start in the literal token at or before the escape's line and reach that line). (m) a main script that imports, inside 0-2 calls, a module with one syntactic / compile-stage break: the runtime trace is the import line then the call sites, and the message seen through koto::Koto::compile_and_run equals the runtime error's rendering. distinct = distinct request/program texts".into();
     let drv = Driver::spawn(&args.driver);
     let open: Vec<String> = rep.known_open().iter().filter_map(|e| e["id"].as_str().map(|s| s.to_string())).collect();
     let mut cx = Ctx { rep, drv, k_fail: 0, d_fail: 0, known_hits: Default::default(), open, verbose: args.replay.is_some(), mod_counter: 0, attribute: true };
@@ -2866,6 +3005,10 @@ fn main() {
     let mut r7 = rng.fork();
     if on("chainmaps") {
         cx.chainmaps(&mut r7, n_chain);
+    }
+    let mut r8 = rng.fork();
+    if on("importerrors") {
+        cx.import_errors(&mut r8, n_mod / 2);
     }
 
     cx.rep.note("mutation pilot (2026-09-26, scratch copy of /repo outside /repo and /verif, quick tier, seed 1; see requests/C12.md): get_source_span `<` for `<=` -> K:C12:SrcMap.lookup + C12:trace-lines; trace pushed outermost first -> C12:trace-lines; pop_span dropped at each of 11 sites of compiler.rs (nested fn args, assign target, type hints, catch arg/block, map entry, match arm, for iterable) -> C12:trace-lines each; debug prefix from span.end -> C12:debug-prefix; excerpt underline off by one -> K:C12:Excerpt.render; DebugInfo::push merging on equal start only -> K:C12:SrcMap.lookup; unchanged copy -> exit 0");
